@@ -471,6 +471,26 @@ theorem C14_add_wellFormed (e e' : Ev) (p : Nat) (cs : List Nat) (h : WellFormed
         rw [hget] at hiq
         exact absurd hiq List.not_mem_nil
 
+/-- error branch: `add_children` raises (`ValueError`) exactly when the parent is not a particle of the tree, and
+then nothing is changed (the model returns `none`, no new state) -/
+theorem C14_add_unknown_parent (e : Ev) (p : Nat) (cs : List Nat) :
+    addChildren e p cs = none ↔ p ∉ e.all := by
+  unfold addChildren
+  cases hi : e.all.idxOf? p with
+  | none =>
+    simp only [true_iff]
+    simpa using hi
+  | some pi =>
+    simp only [reduceCtorEq, false_iff, not_not]
+    obtain ⟨hlt, hv, _⟩ := List.idxOf?_eq_some_iff.mp hi
+    rw [← hv]; exact List.getElem_mem hlt
+
+/-- error branch of the secondaries: when the 1000 tries are used up no pair is produced (`choose_shower_fractions`
+then returns `None` and `Interaction.__init__` fails with `TypeError` — reachable only by a tape on which a thousand
+consecutive secondary sets violate energy conservation) -/
+theorem C14_retry_exhausted (f : Flavor) (T : SecTables) (prim : ℝ × ℝ) (E lep : ℝ) (t : Tape) :
+    retryLoop f T prim E lep 0 t = none := rfl
+
 /-- every event reachable by a history of `add_children` calls is well formed -/
 theorem C14_history_wellFormed (roots : List Nat) (ops : List (Nat × List Nat)) (e : Ev)
     (h : build roots ops = some e) : WellFormed e := by
